@@ -44,6 +44,23 @@ def _is_canon(s):
 
 def main():
     job = json.load(sys.stdin)
+    out = attempt(job, {})
+    if not out.get('reproduced') and out.get('uuid_candidates'):
+        # an `oid` argument of the model is only abstractly a uuid text: try the uuid texts of the heap
+        for pname, cands in out['uuid_candidates'].items():
+            for cand in cands:
+                o2 = attempt(job, {pname: cand})
+                if o2.get('reproduced'):
+                    o2['note'] = 'argument %s of the model replaced by the concrete uuid text %r' % (pname, cand)
+                    out = o2
+                    break
+            if out.get('reproduced'):
+                break
+    out.pop('uuid_candidates', None)
+    json.dump(out, sys.stdout, default=repr)
+
+
+def attempt(job, overrides):
     model = job['model']
     objs = {int(k): v for k, v in model['objects'].items()}
     nxt = model.get('next') or (max(objs) + 1)
@@ -61,9 +78,10 @@ def main():
         if r >= nxt:
             continue
         if o.get('cls') in ('BaseDocument', 'BaseSection', 'BaseProperty'):
-            idv = (o.get('fields', {}).get('_id') or {}).get('str')
-            if idv is not None and len(idv) == 36 and idv not in strmap:
-                strmap[idv] = str(uuid.uuid4())
+            for fld in ('_id', '_name'):
+                idv = (o.get('fields', {}).get(fld) or {}).get('str')
+                if idv is not None and len(idv) == 36 and idv not in strmap:
+                    strmap[idv] = str(uuid.uuid5(uuid.NAMESPACE_OID, idv))
     # create objects
     for r, o in sorted(objs.items()):
         if r >= nxt:
@@ -158,15 +176,23 @@ def main():
 
     fn, kind = native.resolve(job['fid'].split('#')[0])
     params = job['params']
-    args = [val(model['params'].get(p)) for p in params]
+    args = [overrides[p] if p in overrides else val(model['params'].get(p)) for p in params]
+    cands = {}
+    for p, a in zip(params, args):
+        if 'oid' in p and isinstance(a, str) and p not in overrides:
+            try:
+                uuid.UUID(a)
+            except Exception:      # noqa
+                texts = sorted(set(strmap.values()))
+                cands[p] = texts + [t.upper() for t in texts] + ['{%s}' % t for t in texts]
     script.append('# call: %s(%s)' % (job['fid'], ', '.join(repr(a) if not hasattr(a, '_id') else
                                                          'o%d' % [k for k, v in real.items() if v is a][0] for a in args)))
-    out = {'reproduced': False, 'pre_state_wellformed': not pre_problems, 'pre_problems': pre_problems[:5]}
+    out = {'reproduced': False, 'pre_state_wellformed': not pre_problems, 'pre_problems': pre_problems[:5],
+           'uuid_candidates': cands}
     if any(isinstance(a, str) and a.startswith('<') for a in args):
         out['observed'] = 'model uses an abstract argument value; not replayable'
         out['script'] = '\n'.join(script)
-        json.dump(out, sys.stdout)
-        return
+        return out
     kind_, res = h.call(fn, *args)
     observed = 'returned %r' % (res,) if kind_ == 'ret' else 'raised %s: %s' % (type(res).__name__, res)
     problems = []
@@ -225,7 +251,7 @@ def main():
                 'violated': violated, 'script': '\n'.join(script)})
     if violated and ('Inv.' in ob or 'Same' in ob or 'raises' in ob or 'ensures' in ob or 'escaping' in ob):
         out['reproduced'] = True
-    json.dump(out, sys.stdout, default=repr)
+    return out
 
 
 if __name__ == '__main__':
